@@ -559,3 +559,6 @@ pub proof fn lemma_mod_chain5b(a0: int, x1: int, x2: int, x3: int, x4: int, x5: 
     assert((d1 + d2 + d3) % 256 == 0);
     assert((d1 + d2 + d3 + d4) % 256 == 0);
 }
+
+/// every byte of the image is zero (the derived Default of a packed structure)
+pub open spec fn is_zero_image(s: Seq<u8>) -> bool { forall|i: int| 0 <= i < s.len() ==> s[i] == 0u8 }
